@@ -15,9 +15,12 @@ reset-on-disable block come last in `elaborate`, so they win over the counters' 
 
 `Config.fix = false` is the code as found in the repository (the reset-on-disable block lives inside
 the DISPATCH_COMMAND state).  `Config.fix = true` is the repaired code (C38 / F14): the block is
-evaluated in every state, returns the dispatch FSM to DISPATCH_COMMAND and suppresses dispatching in
-the cycle of a USB reset.  Under the environment of C37 (link stays enabled, no USB reset) the two
-are the same machine.
+evaluated in every state, returns the dispatch FSM to DISPATCH_COMMAND (also suppressing a dispatch in
+the cycle of a USB reset) and re-arms the sequence advertisement with `expected_sequence_number - 1`
+(the last *received* header) instead of `next_header_to_ack - 1` (the last *acknowledged* one; the two
+differ when LGOODs were still owed when the link went down) and does not count a header whose buffer
+write coincides with the reset cycle (it is dropped with the other buffered headers).  Under the environment of C37 (link
+stays enabled, no USB reset) the two are the same machine.
 
 The running CRC-16 register of `HeaderPacketCRC` is cleared in every WAIT_FOR_HPSTART cycle and
 advanced exactly when DW0, DW1, DW2 are latched, so in CHECK_PACKET its output is the CRC-16 of the
@@ -268,9 +271,10 @@ def step (c : Config) (s : State) (i : In) : State × Out :=
   let latch := s.gen == .idle && generate s
   let s' : State :=
     { rx := RawRx.step s.rx i.sink s.expSeq
-      expSeq := if rst && i.usbReset then 0 else if accept s then (s.expSeq + 1) % 8 else s.expSeq
+      expSeq := if rst && i.usbReset then 0 else if rst && c.fix then s.expSeq
+                else if accept s then (s.expSeq + 1) % 8 else s.expSeq
       nextCredit := if rst then 0 else if lcrdDone s i then (s.nextCredit + 1) % 4 else s.nextCredit
-      nextAck := if rst then (if i.usbReset then 7 else (s.nextAck + 7) % 8)
+      nextAck := if rst then (if i.usbReset then 7 else if c.fix then (s.expSeq + 7) % 8 else (s.nextAck + 7) % 8)
                  else if lgoodDone s i then (s.nextAck + 1) % 8 else s.nextAck
       acks := if rst then 1 else updown s.acks (accept s) (lgoodDone s i)
       cti := if rst then 4 else updown s.cti (pop s i) (lcrdDone s i)
